@@ -46,6 +46,7 @@ func (e *Engine) VerifyUnit(c *Contract) (r *FnRun) {
 		}
 	}()
 	r.Sc.Comment("unit " + fn.String())
+	r.inInit = fn.Name() == "init" && fn.Parent() == nil
 	st := &State{regs: map[*ssa.Alloc]Term{}, heap: map[string]Term{}, ghost: map[string]Term{}, held: map[string]bool{}, vol: map[string]bool{}}
 	st.top = r.Sc.Declare("top0", SInt)
 	r.Sc.Assume(Le(IntLit(0), st.top))
@@ -146,7 +147,225 @@ func (e *Engine) VerifyUnit(c *Contract) (r *FnRun) {
 		}
 	}
 	r.checkMonitorsAtExit(fr, retGuard)
+	if r.inInit {
+		r.checkGlobalImmutability(fr)
+	}
 	return r
+}
+
+// exprMentions reports whether a specification expression names the identifier.
+func exprMentions(e Expr, name string) bool {
+	switch e := e.(type) {
+	case EIdent:
+		return e.Name == name
+	case EUn:
+		return exprMentions(e.X, name)
+	case EBin:
+		return exprMentions(e.X, name) || exprMentions(e.Y, name)
+	case ECall:
+		for _, a := range e.Args {
+			if exprMentions(a, name) {
+				return true
+			}
+		}
+	case ESel:
+		return exprMentions(e.X, name)
+	case EIndex:
+		return exprMentions(e.X, name) || exprMentions(e.I, name)
+	case ESlice:
+		return exprMentions(e.X, name) || (e.Lo != nil && exprMentions(e.Lo, name)) || (e.Hi != nil && exprMentions(e.Hi, name))
+	case ECond:
+		return exprMentions(e.C, name) || exprMentions(e.A, name) || exprMentions(e.B, name)
+	case EQuant:
+		return exprMentions(e.Body, name)
+	case ETypeAssert:
+		return exprMentions(e.X, name)
+	}
+	return false
+}
+
+// checkGlobalInvAtStore: inside the package initializer, every package invariant that names g must hold right
+// after g is assigned.
+func (fr *Frame) checkGlobalInvAtStore(g *ssa.Global, pos token.Pos) {
+	r := fr.R
+	for _, gi := range r.Eng.DB.GlobalInvs[g.Pkg.Pkg.Path()] {
+		if !exprMentions(gi.E, g.Name()) {
+			continue
+		}
+		ctx := fr.ctxHere()
+		goal := Implies(fr.cur, ctx.Bool(gi.E))
+		cl := gi
+		r.addObl("global-inv", gi.Label+"@"+g.Name(), goal, gi.Src, &cl, pos)
+		r.globalsChecked[g.Name()] = true
+	}
+}
+
+// checkGlobalImmutability is the frame condition behind package invariants: a variable named in one is assigned
+// exactly once (in init) and the value read from it is only indexed, measured, ranged over, compared, or passed
+// to library functions known not to write or retain their argument.
+func (r *FnRun) checkGlobalImmutability(fr *Frame) {
+	pkg := pkgOf(r.Fn)
+	sp := r.Eng.Prog.Package(pkg)
+	for _, gi := range r.Eng.DB.GlobalInvs[pkg.Path()] {
+		for name, m := range sp.Members {
+			g, ok := m.(*ssa.Global)
+			if !ok || !exprMentions(gi.E, name) {
+				continue
+			}
+			var bad []string
+			stores := 0
+			for _, fn := range r.Eng.FnByName {
+				if pkgOf(fn) != pkg {
+					continue
+				}
+				for _, b := range fn.Blocks {
+					for _, in := range b.Instrs {
+						for _, op := range in.Operands(nil) {
+							if *op != ssa.Value(g) {
+								continue
+							}
+							switch in := in.(type) {
+							case *ssa.Store:
+								if in.Addr == g {
+									stores++
+									if fn != r.Fn {
+										bad = append(bad, "assigned in "+r.fnShort(fn))
+									}
+								} else {
+									bad = append(bad, "address stored in "+r.fnShort(fn))
+								}
+							case *ssa.UnOp:
+								if why := escapingUse(in, 0); why != "" {
+									bad = append(bad, why+" in "+r.fnShort(fn)+" at "+r.pos(in.Pos()))
+								}
+							case *ssa.DebugRef:
+							default:
+								bad = append(bad, fmt.Sprintf("address used by %T in %s", in, r.fnShort(fn)))
+							}
+						}
+					}
+				}
+			}
+			if stores != 1 {
+				bad = append(bad, fmt.Sprintf("assigned %d times", stores))
+			}
+			goal := True
+			src := "package variable " + name + " is assigned once in init and never mutated or aliased"
+			if len(bad) > 0 {
+				goal = False
+				sort.Strings(bad)
+				src += ": " + strings.Join(bad, "; ")
+			}
+			cl := gi
+			r.addObl("frame", "global-immutable:"+name, goal, src, &cl, g.Pos())
+		}
+	}
+}
+
+// localLiteralReadOnly: a composite literal built in place whose only use is to be handed (by value, boxed in an
+// interface) to a library function that reads it.
+func localLiteralReadOnly(a *ssa.Alloc) bool {
+	for _, r := range *a.Referrers() {
+		switch r := r.(type) {
+		case *ssa.FieldAddr:
+			for _, r2 := range *r.Referrers() {
+				if st, ok := r2.(*ssa.Store); !ok || st.Addr != r {
+					if _, isDbg := r2.(*ssa.DebugRef); !isDbg {
+						return false
+					}
+				}
+			}
+		case *ssa.UnOp:
+			for _, r2 := range *r.Referrers() {
+				switch r2 := r2.(type) {
+				case *ssa.MakeInterface:
+					for _, r3 := range *r2.Referrers() {
+						c, ok := r3.(*ssa.Call)
+						if !ok || c.Common().StaticCallee() == nil || !readOnlyCallees[c.Common().StaticCallee().String()] {
+							if _, isDbg := r3.(*ssa.DebugRef); !isDbg {
+								return false
+							}
+						}
+					}
+				case *ssa.DebugRef:
+				default:
+					return false
+				}
+			}
+		case *ssa.DebugRef:
+		default:
+			return false
+		}
+	}
+	return true
+}
+
+var readOnlyCallees = map[string]bool{
+	"encoding/json.Marshal": true,
+	"slices.Contains": true, "slices.Clone": true, "slices.Index": true, "slices.Equal": true, "strings.Join": true,
+	"slices.BinarySearch": true, "fmt.Sprintf": true, "fmt.Errorf": true, "slices.IndexFunc": true,
+}
+
+// escapingUse classifies the uses of a value read from a protected package variable.
+func escapingUse(v ssa.Value, depth int) string {
+	if v.Referrers() == nil {
+		return ""
+	}
+	for _, ref := range *v.Referrers() {
+		switch ref := ref.(type) {
+		case *ssa.DebugRef:
+		case *ssa.IndexAddr:
+			// element address: may only be loaded
+			for _, r2 := range *ref.Referrers() {
+				switch r2 := r2.(type) {
+				case *ssa.UnOp, *ssa.DebugRef:
+				default:
+					return fmt.Sprintf("element address used by %T", r2)
+				}
+			}
+		case *ssa.Index, *ssa.Lookup, *ssa.Range:
+		case *ssa.BinOp:
+		case *ssa.Store:
+			if ref.Val == v {
+				// a copy into a local variable is followed; anything else is an alias
+				if a, ok := ref.Addr.(*ssa.Alloc); ok && isRegisterAlloc(a) && depth < 3 {
+					for _, r2 := range *a.Referrers() {
+						if ld, ok := r2.(*ssa.UnOp); ok {
+							if why := escapingUse(ld, depth+1); why != "" {
+								return why
+							}
+						}
+					}
+					continue
+				}
+				if fa, ok := ref.Addr.(*ssa.FieldAddr); ok {
+					if a, ok := fa.X.(*ssa.Alloc); ok && localLiteralReadOnly(a) {
+						continue
+					}
+				}
+				return "value stored (aliased)"
+			}
+		case *ssa.Call:
+			cc := ref.Common()
+			if b, ok := cc.Value.(*ssa.Builtin); ok && (b.Name() == "len" || b.Name() == "cap") {
+				continue
+			}
+			if fn := cc.StaticCallee(); fn != nil {
+				o := fn
+				if fn.Origin() != nil {
+					o = fn.Origin()
+				}
+				if readOnlyCallees[o.String()] {
+					continue
+				}
+				return "passed to " + o.String()
+			}
+			return "passed to a dynamic call"
+		default:
+			return fmt.Sprintf("used by %T", ref)
+		}
+	}
+	return ""
 }
 
 func pkgOf(fn *ssa.Function) *types.Package {
